@@ -378,8 +378,11 @@ PROPS["C08"]["streams"] = [s_ for s_ in PROPS["C08"]["streams"] if s_.get("kind"
 # only under the greedy policies without zero-length tasks: when the join is scheduled *ahead* (planners,
 # chaos, or the early offers of KF-C18-zero-length-parent) the "a join is ready once any parent completed"
 # rule counts the conditional itself as a completed parent -- see DESIGN section 9
+# (... and without deadline enforcement / drop_skipped_tasks: once a policy cancels the taken branch, the join of
+# the empty branch becomes "the branch that ran" for the frontier and it and its successors are offered with stale
+# estimates -- same root as KF-C07-empty-branch-join-starts-early; seen at VERIF_SEED=2 in C02 and C18)
 G_COND_EMPTY = {"profile": "greedy", "opts": {"p_batch_loader": 0, "p_conditionals": 1.0, "p_empty_branch": 0.6,
-                                              "p_zero_runtime": 0.0}}
+                                              "p_zero_runtime": 0.0, "p_enforce": 0.0, "p_drop": 0.0}}
 PROPS["C07"]["streams"] = [G_COND, CH_COND, G_COND_RESOLVE, G_COND_EMPTY]
 
 # ------------------------------------------------------------------ C06: plans that are revised and then retracted
@@ -448,6 +451,7 @@ for _p in ("C05", "C06", "C18"):
 # ------------------------------------------------------------------ C07: empty branches resolved at submission
 G_COND_EMPTY_RESOLVE = {"profile": "greedy", "opts": {"p_batch_loader": 0, "p_conditionals": 1.0, "p_empty_branch": 0.6,
                                                       "p_zero_runtime": 0.0, "p_resolve": 1.0, "max_conds": 3,
+                                                      "p_enforce": 0.0, "p_drop": 0.0,
                                                       "p_shuffle_nodes": 0.5}}
 PROPS["C07"]["streams"] = PROPS["C07"]["streams"] + [G_COND_EMPTY_RESOLVE]
 
